@@ -202,4 +202,27 @@ var props = map[string]Prop{
 			inj("layout", "ssa", "zz_verif_c08_test.go", "llvm14", "TestVerifC08Layout", 4000, 150000, 4, 16),
 		},
 	},
+	"C01": {
+		ID: "C01", Level: "exploration",
+		Rule: "harness/gencore: rapid composes import-free modules of 5 packages (main, pa, q.r/pa, pb, pc/sub; module path with a dot) from 10-24 independent units; each unit instantiates one of 15 templates of the core language with drawn constants, types and package placement (labelled break/continue/goto/fallthrough; closures capturing by reference, per-iteration loop variables, closures in struct fields, package-level initialisers and across packages; value/pointer receivers, method values and expressions, embedding with promotion and shadowing; interface dispatch, embedding, type switches, nil pointer in interface; generic functions and types with ~constraints, local and named type arguments, instantiation from two packages; struct/array copy semantics and aliasing; two-phase multiple assignment; every range form incl. range-over-func with break and return; variadics, mutual recursion; defer/recover; mixed-width integer and string operations; bound methods) and main ends normally, with an uncaught panic or with a run-time fault. Each module is built by gc and by llgo at O0, O2 and O2+nogc (thorough: also Oz, O0+nogc, O1, O3); per-unit output lines, the normalised panic line and the exit status must agree. Non-trivial: every unit (each executes several constructs of the property's list); distinct by (template, reference output).",
+		Assumptions: []string{
+			"gc (go1.24) output is the reference; units avoid unspecified behaviour by construction (no map order, addresses, float formatting, unspecified evaluation order)",
+			"uncaught-panic output is compared after normalisation (first panic line by class, exit status; goroutine dumps dropped)",
+			"LLVM 14: configurations that crash libLLVM are skipped and counted; loops over large temporaries are not generated (listed C06 stack finding)",
+		},
+		Jobs: []Job{
+			prog("programs", "./harness/c01", "TestC01Programs", 2, 60, 8, 16),
+		},
+	},
+	"C14": {
+		ID: "C14", Level: "exploration",
+		Rule: "harness/gencore restricted to its naming-hazard templates: programs of 10-24 units over packages main, pa, q.r/pa (two packages named pa), pb, pc/sub in module ex.io/m.v: identical type/method/function/variable names in two packages, methods Val/Val2 with nested closures on value and pointer receivers, closures in package-level initialisers and in init, generic types and functions instantiated with same-named function-local types from two packages and with named, composite and local type arguments across packages, bound-method values and method expressions, closures passed across packages. Every entity yields its own token; the program built by llgo (O0, O2, O2+nogc; thorough more) must print exactly what gc prints. Non-trivial: every unit (each contains >= 1 pair of entities whose short names coincide while their qualified identity differs); distinct by (template, reference output).",
+		Assumptions: []string{
+			"gc output is the reference: a merged, duplicated or mis-bound symbol shows as a wrong token, a link failure or a crash",
+			"the in-process injectivity check of the naming functions and the inspection of mergeable (linkonce/weak) definitions across modules are not built; linkname/export directives are not generated",
+		},
+		Jobs: []Job{
+			prog("programs", "./harness/c14", "TestC14Programs", 2, 60, 8, 16),
+		},
+	},
 }
